@@ -14,6 +14,7 @@ MONITORS = {
     "C10": ["monitors.c10"],
     "C11": ["monitors.c11"],
     "C12": ["monitors.c12"],
+    "C13": ["monitors.c13"],
     "C14": ["monitors.c14"],
     "C16": ["monitors.c16"],
 }
